@@ -177,6 +177,17 @@ def gen_C03(g, tier):
                 av = alt_value(g, c, n)
                 if av:
                     lines.append(f"{c} owned {r.randrange(n)} {av}")
+        # long parents (many storage words, several allocation growths): the last symbols, windows inside the last word
+        for n in ([4096 * 64 // (64 * w) + 3] if tier == "quick" else [1100, 4096 // w + 3, 4096 * 64 // (64 * w) + 3, 5000]):
+            t = g.text(c, n)
+            base = f"p str {hx(t)}"
+            lines.append(f"{c} show sl r {n - 3} {n} {base}")
+            lines.append(f"{c} show sl rf {n - 1} 0 sl r 2 {n} {base}")
+            lines.append(f"{c} nth {n - 1} {base}")
+            lines.append(f"{c} get {n - 1} sl rf {n - 5} 0 {base}")
+            lines.append(f"{c} get {n} {base}")
+            lines.append(f"{c} owned {n - 1} {base}")
+            lines.append(f"{c} show sl ri {n - 64 // w - 1} {n - 1} {base}")
         ns = [64 // w + 3, 128 // w + 2] if tier == "quick" else [64 // w + 3, 128 // w + 2, 192 // w + 1, 5]
         for n in ns:
             t = g.text(c, n)
@@ -513,6 +524,20 @@ def gen_C06(g, tier):
                         lines.append(f"{c} raw append {base} {arg}")
                         lines.append(f"{c} show append append {base} {arg} {arg}")
                         lines.append(f"{c} show ext {hx(g.text(c, per))} append {base} {arg}")
+        # edits on long sequences (many words; growth past the initial capacity): ends, middle, whole-word removals
+        for n in ([1100] if tier == "quick" else [1100, 4099, 8200]):
+            t = g.text(c, n)
+            base = f"p str {hx(t)}"
+            arg = offset_slice(g, c, g.text(c, 70), 3)
+            lines.append(f"{c} show push 1 push 0 {base}")
+            lines.append(f"{c} show append {base} {arg}")
+            lines.append(f"{c} show insert {n - 1} {base} {arg}")
+            lines.append(f"{c} show insert {n // 2} {base} {arg}")
+            lines.append(f"{c} show remove r {n - 70} {n - 1} {base}")
+            lines.append(f"{c} show remove rt 0 {n - 3} {base}")
+            lines.append(f"{c} show trunc {n - 1} {base}")
+            lines.append(f"{c} show ext {hx(g.text(c, 300))} {base}")
+            lines.append(f"{c} raw prepend {base} {arg}")
         # long random histories crossing word boundaries, from every production route
         for _ in range(6 if tier == "quick" else 150):
             v, n = rand_value(g, c, r.randrange(2, 7 if tier == "quick" else 12), 200)
@@ -586,6 +611,13 @@ def gen_C07(g, tier):
                         if n >= 2:
                             lines.append(f"{c} show {op} sl r 1 {n} {av}")
                             lines.append(f"{c} show {op} sl rt 0 {n - 1} {av}")
+        # long sequences (exact multiples of 64 words and one more symbol), every form once
+        for n in ([64 * 64 // w, 64 * 64 // w + 1] if tier == "quick" else [1100, 64 * 64 // w, 64 * 64 // w + 1, 2 * 64 * 64 // w + 3]):
+            t = g.text(c, n)
+            for op in ops_v:
+                lines.append(f"{c} show {op} p str {hx(t)}")
+            for op in ops_s:
+                lines.append(f"{c} show {op} {offset_slice(g, c, t, 5)}")
         # unsupported complement must be refused by both sides
         if not info["has_comp"]:
             lines.append(f"{c} show comp p str {hx(g.text(c, 3))}")
@@ -631,6 +663,21 @@ def gen_C11(g, tier):
             lines.append(f"{c} intoiterv p str {hx(t)}")
             lines.append(f"{c} chunksvec 2 p str {hx(t)}")
             lines.append(f"{c} windows 0 p str {hx(t)}")
+        # long sequences: the last items of every iterator, jumps into the last word, wide windows
+        for n in ([1100] if tier == "quick" else [1100, 4099]):
+            t = g.text(c, n)
+            sl = offset_slice(g, c, t, 7)
+            per_ = max(1, 64 // w)
+            lines.append(f"{c} adapt iter 0 last 0 {sl}")
+            lines.append(f"{c} adapt reviter 0 nth {n - 1} {sl}")
+            lines.append(f"{c} adapt iter 0 nth {n - 1} {sl}")
+            lines.append(f"{c} adapt iter 0 count 0 {sl}")
+            lines.append(f"{c} adapt windows {per_ + 1} nthnext {n - per_ - 3} {sl}")
+            lines.append(f"{c} adapt windows {n - 2} count 0 {sl}")
+            lines.append(f"{c} adapt chunks {per_ * 17 + 1} foldafter 0 {sl}")
+            lines.append(f"{c} adapt chunks 3 last 0 {sl}")
+            lines.append(f"{c} adapt chunks 3 rev {n // 3 - 2} {sl}")
+            lines.append(f"{c} adapt iter 1 collectseq {n - 70} {sl}")
         for _ in range(5 if tier == "quick" else 60):
             e, n = rand_slice(g, c, 3, 150)
             lines.append(f"{c} iter {e}")
